@@ -320,7 +320,7 @@ func Check(res *fw.Result, h *subrig.History) {
 			violate(res, "registry-leak", fmt.Sprintf("%s: %s remains (triggers, subscriptions, connections)", phase, pending), mt, witness(nil))
 		case strings.Contains(pending, "not completed") || strings.Contains(pending, "has not returned") || strings.Contains(pending, "completions outstanding"):
 			violate(res, "not-completed", fmt.Sprintf("%s: %s", phase, pending), mt, witness(nil))
-		case strings.HasPrefix(pending, "Start context"):
+		case strings.HasPrefix(pending, "Start context") && strings.Contains(pending, "not cancelled"):
 			violate(res, "ctx-not-cancelled", fmt.Sprintf("%s: %s", phase, pending), mt, witness(nil))
 		case strings.HasPrefix(pending, "Start of instance") || strings.Contains(pending, "calls into the source"):
 			violate(res, "start-not-returned", fmt.Sprintf("%s: %s", phase, pending), mt, witness(nil))
@@ -531,7 +531,7 @@ func porcupineCheck(res *fw.Result, h *subrig.History, at map[int]attach, stale 
 		cid := 0
 		addOp := func(in pin, call, ret int64) {
 			if ret == 0 || ret < call {
-				ret = h.End
+				ret = -1 // open: closed below at a horizon later than every recorded time
 			}
 			ops = append(ops, porcupine.Operation{ClientId: cid, Input: in, Call: call, Output: nil, Return: ret})
 			cid++
@@ -596,6 +596,12 @@ func porcupineCheck(res *fw.Result, h *subrig.History, at map[int]attach, stale 
 				if o.Kind == "maybe-unsub" {
 					k = "maybe"
 				}
+				if o.Sub.Sync && o.Sub.SyncErr() != "" {
+					// The synchronous call returned the resolver's shutdown error: it may have returned
+					// on r.ctx.Done() without unsubscribing (the subscriber then stays registered, and
+					// others can still join its trigger, until shutdownResolver detaches everything).
+					k = "maybe"
+				}
 				ret := o.Ret
 				if ret == 0 && o.Sub.Sync {
 					ret = o.Sub.SyncRet.Load()
@@ -611,6 +617,16 @@ func porcupineCheck(res *fw.Result, h *subrig.History, at map[int]attach, stale 
 		}
 		if len(pos) == 0 {
 			continue
+		}
+		horizon := h.End
+		for _, o := range ops {
+			horizon = max64(horizon, max64(o.Call, o.Return))
+		}
+		horizon++
+		for i := range ops {
+			if ops[i].Return < 0 {
+				ops[i].Return = horizon
+			}
 		}
 		n := len(pos)
 		model := porcupine.NondeterministicModel{
